@@ -143,6 +143,82 @@ func TestC20Chain(t *testing.T) {
 		}
 	}
 
+	// ---- option lists that mix a single-interceptor option and a chain option (the last one wins), and the SAME
+	//      option values applied to 2..3 NewServer calls: every server runs exactly the interceptors of the last option,
+	//      each once per RPC, whatever was installed before and however often the options were applied
+	for _, stream := range []bool{false, true} {
+		for _, order := range []string{"single-then-chain", "chain-then-single", "single-chain-single", "chain-then-chain"} {
+			for nsrv := 1; nsrv <= 3; nsrv++ {
+				log := &chainLog{}
+				// x is the single interceptor (number 9 when it must not run), a, b the chain (1, 2)
+				var opts []goat.ServerOption
+				var bs []beh
+				mkU := func(j int64) grpc.UnaryServerInterceptor { return recUnary(log, j, beh{}) }
+				mkS := func(j int64) grpc.StreamServerInterceptor { return recStream(log, j, beh{}) }
+				single := func(j int64) goat.ServerOption {
+					if stream {
+						return goat.StreamInterceptor(mkS(j))
+					}
+					return goat.UnaryInterceptor(mkU(j))
+				}
+				chainOf := func(js ...int64) goat.ServerOption {
+					if stream {
+						var is []grpc.StreamServerInterceptor
+						for _, j := range js {
+							is = append(is, mkS(j))
+						}
+						return goat.ChainStreamInterceptor(is...)
+					}
+					var is []grpc.UnaryServerInterceptor
+					for _, j := range js {
+						is = append(is, mkU(j))
+					}
+					return goat.ChainUnaryInterceptor(is...)
+				}
+				switch order {
+				case "single-then-chain":
+					opts, bs = []goat.ServerOption{single(9), chainOf(1, 2)}, make([]beh, 2)
+				case "chain-then-single":
+					opts, bs = []goat.ServerOption{chainOf(8, 9), single(1)}, make([]beh, 1)
+				case "single-chain-single":
+					opts, bs = []goat.ServerOption{single(8), chainOf(9, 7), single(1)}, make([]beh, 1)
+				case "chain-then-chain":
+					opts, bs = []goat.ServerOption{chainOf(8, 9), chainOf(1, 2, 3)}, make([]beh, 3)
+				}
+				var servers []*goat.Server
+				for i := 0; i < nsrv; i++ {
+					servers = append(servers, goat.NewServer("dst", opts...)) // the same option values every time
+				}
+				for si, srv := range servers {
+					for round := 0; round < 2; round++ {
+						if want(idx) {
+							var obs string
+							if !stream {
+								final := func(ctx context.Context, req any) (any, error) {
+									log.add(fmt.Sprintf("EHandler %s %s", zs(ctxToks(ctx)), zs(msgToks(req))))
+									return &wrapperspb.BytesValue{Value: append([]byte(nil), req.(*wrapperspb.BytesValue).Value...)}, nil
+								}
+								rep, err := srv.VerifUnaryInterceptor()(context.Background(), bv([]byte{7}), &grpc.UnaryServerInfo{FullMethod: "/verif.Echo/Unary"}, final)
+								obs = cresCoq(msgToks(rep), errCode(err), log.take())
+							} else {
+								final := func(s any, ss grpc.ServerStream) error {
+									log.add(fmt.Sprintf("EHandler %s %s", zs(ctxToks(ss.Context())), zs(marksOf(ss))))
+									return nil
+								}
+								err := srv.VerifStreamInterceptor()(nil, &markStream{ctx: context.Background()}, &grpc.StreamServerInfo{FullMethod: "/verif.Echo/Bidi"}, final)
+								obs = cresCoq(nil, errCode(err), log.take())
+							}
+							em.Emit(Rec{Idx: idx, Kind: "chain-options", Desc: map[string]any{"stream": stream, "options": order, "servers": nsrv, "server": si, "rpc": round},
+								Tags: []string{"options=" + order, fmt.Sprintf("options:same-values-for-servers=%d", nsrv), fmt.Sprintf("stream=%v", stream)},
+								Coq:  fmt.Sprintf("CChain %s %s 0 %s", coqBool(stream), behsCoq(bs), obs)})
+						}
+						idx++
+					}
+				}
+			}
+		}
+	}
+
 	// ---- the exported recursion at every index
 	nAt := 120
 	if thorough() {
